@@ -101,6 +101,10 @@ def check(prog, rep):
     if not m:
         rep.error("positive fixture fixtures/peewee_atomic.py no longer matches the AUTOCOMMIT rule")
     rep.extra["fixture_matches"] = len(m)
+    # the commit bookkeeping (counter, time of the last flush) belongs to one store: nothing of it is shared between instances
+    from ..rules_store import instance_state
+
+    instance_state(prog, rep)
 
 
 SQ = "aw_datastore/storages/sqlite.py"
